@@ -1,5 +1,49 @@
 import Driver.Proto
-/-! C20 handler (not implemented yet). -/
+import ThunderModel.Limiter
+/-! C20 handler: replays a labelled trace, returning the abstract state after every step. -/
+open Lean TM.Limiter
+
 namespace Driver.C20
-def handle : Handler := fun _ => throw "C20: no model yet"
+
+def decLabel (j : Json) : Except String Label := do
+  let a ← j.getArr?
+  let name ← (a[0]?.getD Json.null).getStr?
+  let i : Nat := ((a[1]?.getD (Json.num 0)).getNat?).toOption.getD 0
+  match name with
+  | "acquire" => pure .acquire
+  | "releaseSwap" => pure (.releaseSwap i)
+  | "releaseRecv" => pure (.releaseRecv i)
+  | "blockCas" => pure (.blockCas i)
+  | "blockRecv" => pure (.blockRecv i)
+  | "fDone" => pure (.fDone i)
+  | "deferSend" => pure (.deferSend i)
+  | "deferCas" => pure (.deferCas i)
+  | "giveBack" => pure (.giveBack i)
+  | "nestedDone" => pure (.nestedDone i)
+  | "noop" => pure .noop
+  | _ => throw s!"unknown label {name}"
+
+def statusCode : Status → Nat
+  | .acquired => 0 | .blocked => 1 | .released => 2 | .reacquiring => 3
+
+def snap (s : St) : Json :=
+  Json.mkObj [("chan", (s.chan : Json)), ("statuses", jNats (s.holders.map (fun h => statusCode h.status))),
+    ("running", (running s : Json)), ("allReleased", allReleased s)]
+
+def replay (s : St) : List Label → List Json
+  | [] => []
+  | l :: ls =>
+      match step? s l with
+      | none => [Json.mkObj [("enabled", false)]]
+      | some s' => Json.mkObj [("enabled", true), ("state", snap s')] :: replay s' ls
+
+def handle : Handler := fun req => do
+  let op ← str req "op"
+  match op with
+  | "run" =>
+    let cap ← nat req "cap"
+    let ls ← listOf decLabel (← field req "labels")
+    pure <| Json.mkObj [("steps", Json.arr (replay (init cap) ls).toArray)]
+  | _ => throw s!"C20: unknown op {op}"
+
 end Driver.C20
